@@ -43,7 +43,11 @@ func runStage(
 		// happens. When the stage is over they finish their current iteration before the next stage starts;
 		// when the run itself is over (ctx) the run waits for them, for at most its completion timeout.
 		pool := workers.NewContinuousPool(stage.UsersConcurrency)
-		pool.Start(stageCtx)
+		poolCtx := pool.Start(stageCtx)
+		<-poolCtx.Done()
+		if ctx.Err() != nil || workers.MaxIterationsReached() {
+			return // the run is over, or the limit has been reached: no next stage
+		}
 		select {
 		case <-ctx.Done():
 			return
